@@ -86,7 +86,26 @@ def tscale_mul(name, X, Y):
     return 1e-300 + U.max_abs(tx) + (sx if sx is not None else 1.0) * math.sqrt(3) * U.max_abs(ty) * 3
 
 
+def gt(err, bound):
+    """`err > bound` with NaN polarity: a NaN error (non-finite result of the real code) counts as exceeding"""
+    return not (err <= bound)
+
+
+def nonfinite(ctx, case, got, want, dtype):
+    """a NaN / inf in what the real code returned, where the exact result is finite and far inside the dtype's range, is a
+    failure of the property on that input (max() and `>` silently drop NaNs, so this is tested first)"""
+    if all(math.isfinite(v) for v in got):
+        return False
+    lim = 1e30 if dtype == "float32" else 1e300
+    if all(abs(w) < lim for w in want):
+        ctx.fail(case, f"non-finite: {case.get('op', case.get('stream'))} on {case.get('type')} ({dtype}) returned {[v for v in got if not math.isfinite(v)][:3]} "
+                       f"for a finite valid input whose exact result is finite")
+    return True
+
+
 def cmp_group(ctx, stream, case, name, got, want, dtype, tscale, n=1, fix_sign=False):
+    if nonfinite(ctx, case, got, want, dtype):
+        return False
     e = U.group_err(name, got, want, tscale=tscale, fix_sign=fix_sign)
     t = tol(dtype) * n
     bad = {k: v for k, v in e.items() if not (v <= t)}
@@ -97,6 +116,8 @@ def cmp_group(ctx, stream, case, name, got, want, dtype, tscale, n=1, fix_sign=F
 
 
 def cmp_vec(ctx, stream, case, got, want, dtype, scale, n=1):
+    if nonfinite(ctx, case, got, want, dtype):
+        return False
     err = max((abs(a - b) for a, b in zip(got, want)), default=0.0)
     t = tol(dtype) * n * max(scale, 1e-300)
     if not (err <= t) or len(got) != len(want):
@@ -262,14 +283,14 @@ def run_ops(ctx: Ctx, n_cases: int):
                           try:
                               J.add_(a0)
                               ref = P.LieTensor(a0, ltype=getattr(P, U.ALG[name] + "_type")).Exp() @ mk().clone()
-                              if float((J.tensor() - ref.tensor()).abs().max()) > 64 * torch.finfo(J.dtype).eps * 4:
+                              if gt(float((J.tensor() - ref.tensor()).abs().max()), 64 * torch.finfo(J.dtype).eps * 4):
                                   ctx.fail(case, f"identity: {nm}(...).add_(a) != Exp(a) @ identity for {name}")
                           except Exception as e:
                               ctx.fail(case, f"overlap: {nm}(...).add_(a) raised {type(e).__name__}: {str(e)[:100]}")
                       rows_independent(ctx, case, nm, mk().reshape(-1, U.GDIM[name]) if len(sa) != 1 else mk())
                   # neutral on both sides, bit-exact up to tolerance
                   for Z in (I @ X, X @ I):
-                      if X.numel() and float((Z.tensor() - X.tensor()).abs().max()) > tol(dtype) * max(1.0, float(X.tensor().abs().max())):
+                      if X.numel() and gt(float((Z.tensor() - X.tensor()).abs().max()), tol(dtype) * max(1.0, float(X.tensor().abs().max()))):
                           ctx.fail(case, f"identity: identity is not neutral for {name}")
         except Exception as e:
             ctx.fail(case, f"raises: {op} on {name} raised {type(e).__name__}: {str(e)[:150]}")
@@ -346,7 +367,7 @@ def law_case(ctx: Ctx, case) -> bool:
                                  (av[..., U.QSL[name]] + bv[..., U.QSL[name]]).norm(dim=-1)).max())
         ds = float(((av[..., U.SIDX[name]] - bv[..., U.SIDX[name]]).abs() / bv[..., U.SIDX[name]].abs()).max()) if U.SIDX[name] is not None else 0.0
         dtr = float((av[..., U.TSL[name]] - bv[..., U.TSL[name]]).abs().max()) if U.TSL[name] is not None else 0.0
-        if dq > 4 * t0 or ds > 4 * t0 or dtr > 4 * t0 * tsum(X, Y, Z):
+        if gt(dq, 4 * t0) or gt(ds, 4 * t0) or gt(dtr, 4 * t0 * tsum(X, Y, Z)):
             ctx.fail(case, f"assoc: (X@Y)@Z != X@(Y@Z) for {name} ({dtype}): quaternion {dq:.2e}, scale {ds:.2e}, "
                            f"translation {dtr:.2e} (translation terms sum to {tsum(X, Y, Z):.2e})")
         I = P.identity_like(X)
@@ -359,11 +380,11 @@ def law_case(ctx: Ctx, case) -> bool:
                                      (vv[..., U.QSL[name]] + I.tensor().double()[..., U.QSL[name]]).norm(dim=-1)).max())
             ds = float((vv[..., U.SIDX[name]] - 1).abs().max()) if U.SIDX[name] is not None else 0.0
             dtr = float(vv[..., U.TSL[name]].abs().max()) if U.TSL[name] is not None else 0.0
-            if dq > 4 * t0 or ds > 4 * t0 or dtr > 4 * t0 * (1 + tmag * sinv):
+            if gt(dq, 4 * t0) or gt(ds, 4 * t0) or gt(dtr, 4 * t0 * (1 + tmag * sinv)):
                 ctx.fail(case, f"inverse: {nm} != identity for {name} ({dtype}): quaternion {dq:.2e}, scale {ds:.2e}, translation {dtr:.2e}")
         Mx, My, Mxy = X.matrix().double(), Y.matrix().double(), (X @ Y).matrix().double()
         sc = float(Mx.abs().max()) * float(My.abs().max()) * 4 + 1
-        if float((Mx @ My - Mxy).abs().max()) > 4 * t0 * sc:
+        if gt(float((Mx @ My - Mxy).abs().max()), 4 * t0 * sc):
             ctx.fail(case, f"homomorphism: matrix(X@Y) != matrix(X)matrix(Y) for {name} ({dtype}): {float((Mx @ My - Mxy).abs().max()):.3e}")
         n = U.MATN[name]
         if n == 3:
@@ -371,22 +392,22 @@ def law_case(ctx: Ctx, case) -> bool:
         else:
             ax = (Mx[..., :3, :3] @ p3.double().unsqueeze(-1)).squeeze(-1) + Mx[..., :3, 3]
         psc = float(Mx.abs().max()) * (float(p3.abs().max()) + 1) * 4
-        if float((X.Act(p3).double() - ax).abs().max()) > 4 * t0 * psc:
+        if gt(float((X.Act(p3).double() - ax).abs().max()), 4 * t0 * psc):
             ctx.fail(case, f"action3: Act(X,p) != matrix(X)·p for {name} ({dtype})")
         M4 = Mx if n == 4 else torch.block_diag(Mx, torch.ones(1, 1, dtype=torch.float64))
         a4 = (M4 @ p4.double().unsqueeze(-1)).squeeze(-1)
         psc4 = float(M4.abs().max()) * (float(p4.abs().max()) + 1) * 4
-        if float((X.Act(p4).double() - a4).abs().max()) > 4 * t0 * psc4:
+        if gt(float((X.Act(p4).double() - a4).abs().max()), 4 * t0 * psc4):
             ctx.fail(case, f"action4: Act(X,p4) != matrix4(X)·p4 for {name} ({dtype}), w={case['p4'][-1]}")
         lhs, rhs = (X @ Y).Act(p3).double(), X.Act(Y.Act(p3)).double()
-        if float((lhs - rhs).abs().max()) > 4 * t0 * (sc * (float(p3.abs().max()) + 1)):
+        if gt(float((lhs - rhs).abs().max()), 4 * t0 * (sc * (float(p3.abs().max()) + 1))):
             ctx.fail(case, f"compose: (X@Y).Act(p) != X.Act(Y.Act(p)) for {name} ({dtype})")
         lhs, rhs = (X @ Y).Act(p4).double(), X.Act(Y.Act(p4)).double()
-        if float((lhs - rhs).abs().max()) > 4 * t0 * (sc * (float(p4.abs().max()) + 1)):
+        if gt(float((lhs - rhs).abs().max()), 4 * t0 * (sc * (float(p4.abs().max()) + 1))):
             ctx.fail(case, f"compose4: (X@Y).Act(p4) != X.Act(Y.Act(p4)) for {name} ({dtype})")
         for nm, v in (("X@Y", X @ Y), ("Inv(X)", X.Inv())):
             q = v.tensor().double()[..., U.QSL[name]]
-            if float((q.norm(dim=-1) - 1).abs().max()) > 8 * common.EPS[dtype]:
+            if gt(float((q.norm(dim=-1) - 1).abs().max()), 8 * common.EPS[dtype]):
                 ctx.fail(case, f"valid: {nm} is not a unit quaternion for {name} ({dtype})")
             if U.SIDX[name] is not None and not bool((v.tensor()[..., U.SIDX[name]] > 0).all()):
                 ctx.fail(case, f"valid: {nm} has non-positive scale for {name}")
@@ -438,9 +459,12 @@ def retr_ladder_case(ctx: Ctx, case) -> bool:
         return False
     for nm, Y in outs.items():
         q = Y.tensor()[0].tolist()[U.QSL[name]]
+        if not all(math.isfinite(v) for v in Y.tensor()[0].tolist()):
+            ctx.fail(case | {"spelling": nm}, f"non-finite: {nm} by a rotation of {theta:.6g} rad returned a non-finite element ({name}, {dtype})")
+            continue
         n2 = sum(Fraction(v) ** 2 for v in q)
         defect = abs(float(n2) - 1.0) / 2 / eps
-        if defect > GAMMA_EPS:
+        if gt(defect, GAMMA_EPS):
             ctx.fail(case | {"spelling": nm}, f"valid: {nm} by a rotation of {theta:.6g} rad leaves the unit sphere by {defect:.1f} eps ({name}, {dtype})")
     return len(ctx.failures) == n0
 
@@ -755,6 +779,12 @@ def run_history(ctx: Ctx, n_hist: int, length: int):
         except Exception as e:
             ctx.fail(case, f"raises: history step raised {type(e).__name__}: {str(e)[:150]}")
             continue
+        bad_step = next((i for i, st in enumerate(states) if not all(math.isfinite(v) for v in st)), None)
+        if bad_step is not None:   # the history stays far inside the dtype's range: a NaN / inf state is a failure, with its step
+            ctx.fail(case | {"step": bad_step - 1, "kind": seq[bad_step - 1][0] if bad_step else "initial", "state": states[max(bad_step - 1, 0)],
+                             "arg": seq[bad_step - 1][1] if bad_step else None},
+                     f"non-finite: history step {bad_step - 1} ({seq[bad_step - 1][0] if bad_step else 'initial'}) produced a non-finite state on a finite valid state ({name}, {dtype})")
+            continue
         if stale is not None:
             ctx.fail(case | {"seq_kinds": [k for k, _ in seq][:stale[0] + 1]},
                      f"stale: after in-place update #{stale[0]} ({stale[1]}) {stale[2]}() of the updated object differs from the "
@@ -774,7 +804,7 @@ def run_history(ctx: Ctx, n_hist: int, length: int):
         bound = length * 8 * eps
         ctx.note_case(("history", name, dtype, length, hi), True)
         ctx.count(f"history.{name}.{dtype}")
-        if drift > bound:
+        if gt(drift, bound):
             ctx.fail(case | {"seq_kinds": [k for k, _ in seq][:50]}, f"drift: unit-norm drift {drift:.3e} > {bound:.3e} after {length} operations ({name}, {dtype})")
         # rotation/scale error grows like n·eps; it feeds into every later translation update (lever arm), so the
         # translation error of a random walk grows like n²·eps relative to the largest translation met on the path
@@ -827,7 +857,7 @@ def check_steps(ctx, case, name, eps, states, seq):
         n2y = sum(Fraction(v) ** 2 for v in arg[U.QSL[name]]) if kind in ("mulL", "mulR") else Fraction(1)
         if n2p > 0 and n2y > 0:
             defect = abs(float(n2n / (n2p * n2y)) - 1.0) / 2 / eps
-            if defect > GAMMA_EPS:
+            if gt(defect, GAMMA_EPS):
                 ctx.fail(case | {"step": k, "kind": kind, "state": states[k], "arg": arg},
                          f"valid: step {k} ({kind}) changed the quaternion norm by {defect:.1f} eps - not round-off ({name}, "
                          f"{case.get('dtype')}); state and argument are in the replay")
